@@ -310,3 +310,129 @@ rxp127!(rx_payload_sx127x_b255, 255, true);
 //@h id=rx_payload_sx127x_b256 props=C18 tier=quick build=phy cost=30 timeout=900
 //@bounds caller buffer of 256 bytes, explicit header
 rxp127!(rx_payload_sx127x_b256, 256, false);
+
+// ---- C15 on the chip's register file: the LDRO bit the chip is left with ------------------------
+use crate::verif_kani_lora_phy_regmock::{rf, RegSpi};
+
+fn any_packet_params() -> PacketParams {
+    PacketParams { preamble_length: kani::any(), implicit_header: kani::any(), payload_length: kani::any(), crc_on: kani::any(), iq_inverted: kani::any() }
+}
+
+/// modulation parameters then packet parameters (LoRa::prepare_for_tx / prepare_for_rx), or the
+/// other way round (LoRa::continuous_wave), from arbitrary prior register contents.  The flag
+/// handed to the driver is the one create_modulation_params computes (its equality with the rule
+/// is ldro_rule_*): what is checked here is the bit the chip is left with.
+fn ldro_programmed<C: Sx127xVariant>(mut r: Sx127x<RegSpi, MockIv, C>, reg: usize, mask: u8, packet_first: bool) {
+    let (sf, bw, cr) = (any_sf(), any_bw(), any_cr());
+    kani::assume(C::bandwidth_value(bw).is_ok() && sf != SpreadingFactor::_5);
+    let ldro: bool = kani::any();
+    let mp = ModulationParams { spreading_factor: sf, bandwidth: bw, coding_rate: cr, low_data_rate_optimize: ldro as u8, frequency_in_hz: kani::any() };
+    let pp = any_packet_params();
+    if packet_first {
+        kani::assert(block_on(r.set_packet_params(&pp)).is_ok(), "C15: fault-free bus");
+    }
+    kani::assert(block_on(r.set_modulation_params(&mp)).is_ok(), "C15: fault-free bus");
+    if !packet_first {
+        kani::assert(block_on(r.set_packet_params(&pp)).is_ok(), "C15: fault-free bus");
+    }
+    kani::assert(!rf().bad, "C15: only well-formed register accesses");
+    kani::assert((rf().get(reg) & mask != 0) == ldro, "C15: the LowDataRateOptimize bit the chip is left with after modulation and packet parameters differs from the decision (2^SF/BW >= 16.38 ms)");
+    kani::cover!(ldro, "LDRO on");
+}
+
+fn regradio_1276() -> Sx127x<RegSpi, MockIv, Sx1276> {
+    Sx127x::new(RegSpi::new(), MockIv::new(), Config { chip: Sx1276, tcxo_used: false, tx_boost: kani::any(), rx_boost: kani::any() })
+}
+fn regradio_1272() -> Sx127x<RegSpi, MockIv, Sx1272> {
+    Sx127x::new(RegSpi::new(), MockIv::new(), Config { chip: Sx1272, tcxo_used: false, tx_boost: kani::any(), rx_boost: kani::any() })
+}
+
+/// (a) set_modulation_params from arbitrary register contents leaves the LDRO bit equal to the
+/// decision; bandwidth concrete (it selects the errata 2.3 branch of the SX1276), SF/CR symbolic
+fn ldro_after_modulation<C: Sx127xVariant>(mut r: Sx127x<RegSpi, MockIv, C>, reg: usize, mask: u8, bw: Bandwidth) {
+    let (sf, cr) = (any_sf(), any_cr());
+    kani::assume(sf != SpreadingFactor::_5);
+    let ldro: bool = kani::any();
+    let mp = ModulationParams { spreading_factor: sf, bandwidth: bw, coding_rate: cr, low_data_rate_optimize: ldro as u8, frequency_in_hz: kani::any() };
+    kani::assert(block_on(r.set_modulation_params(&mp)).is_ok(), "C15: fault-free bus");
+    kani::assert(!rf().bad, "C15: only well-formed register accesses");
+    kani::assert((rf().get(reg) & mask != 0) == ldro, "C15: the LowDataRateOptimize bit programmed by set_modulation_params differs from the decision");
+    kani::cover!(ldro, "LDRO on");
+}
+/// (b) set_packet_params from arbitrary register contents does not touch the LDRO bit; with (a)
+/// this gives the bit after prepare_for_tx / prepare_for_rx (modulation, then packet parameters)
+fn ldro_kept_by_packet_params<C: Sx127xVariant>(mut r: Sx127x<RegSpi, MockIv, C>, reg: usize, mask: u8) {
+    let pp = any_packet_params();
+    kani::assert(block_on(r.set_packet_params(&pp)).is_ok(), "C15: fault-free bus");
+    kani::assert(!rf().bad, "C15: only well-formed register accesses");
+    kani::assert(rf().get(reg) & mask == rf().init(reg) & mask, "C15: set_packet_params changes the LowDataRateOptimize bit programmed by set_modulation_params");
+}
+
+//@h id=ldro_after_modulation_sx1276_bw125 props=C15 tier=quick build=phy cost=300 timeout=1800
+//@bounds SX1276 register-file model, arbitrary prior register contents, SF6..12, any CR, LDRO decision symbolic, any frequency, BW 125 kHz (errata 2.3 branch for 62.5..250 kHz): RegModemConfig3 bit 3 after set_modulation_params equals the decision
+//@encodes Sx127x::set_modulation_params, Sx1276::set_modulation_params
+#[kani::proof]
+#[kani::unwind(26)]
+fn ldro_after_modulation_sx1276_bw125() {
+    ldro_after_modulation(regradio_1276(), 0x26, 0x08, Bandwidth::_125KHz);
+}
+//@h id=ldro_after_modulation_sx1276_bw500 props=C15 tier=quick build=phy cost=300 timeout=1800
+//@bounds as ldro_after_modulation_sx1276_bw125 with BW 500 kHz (AutomaticIFOn branch)
+#[kani::proof]
+#[kani::unwind(26)]
+fn ldro_after_modulation_sx1276_bw500() {
+    ldro_after_modulation(regradio_1276(), 0x26, 0x08, Bandwidth::_500KHz);
+}
+//@h id=ldro_after_modulation_sx1276_bw7 props=C15 tier=quick build=phy cost=300 timeout=1800
+//@bounds as ldro_after_modulation_sx1276_bw125 with BW 7.8 kHz (no errata writes below 62.5 kHz)
+#[kani::proof]
+#[kani::unwind(26)]
+fn ldro_after_modulation_sx1276_bw7() {
+    ldro_after_modulation(regradio_1276(), 0x26, 0x08, Bandwidth::_7KHz);
+}
+//@h id=ldro_kept_by_packet_params_sx1276 props=C15 tier=quick build=phy cost=200 timeout=1800
+//@bounds SX1276 register-file model, arbitrary prior register contents, any packet parameters: RegModemConfig3 bit 3 unchanged by set_packet_params
+//@encodes Sx127x::set_packet_params, Sx1276::set_packet_params
+#[kani::proof]
+#[kani::unwind(26)]
+fn ldro_kept_by_packet_params_sx1276() {
+    ldro_kept_by_packet_params(regradio_1276(), 0x26, 0x08);
+}
+//@h id=ldro_kept_by_packet_params_sx1272 props=C15 tier=quick build=phy cost=200 timeout=1800
+//@bounds SX1272: RegModemConfig1 bit 0 unchanged by set_packet_params
+//@encodes Sx127x::set_packet_params, Sx1272::set_packet_params
+#[kani::proof]
+#[kani::unwind(26)]
+fn ldro_kept_by_packet_params_sx1272() {
+    ldro_kept_by_packet_params(regradio_1272(), 0x1D, 0x01);
+}
+//@h id=ldro_programmed_sx1276 props=C15 tier=thorough build=phy cost=2400 timeout=5400
+//@bounds SX1276 end to end (not compositional): every SF6..12 x BW x CR, LDRO decision symbolic, any packet parameters, set_modulation_params then set_packet_params
+//@encodes Sx127x::set_modulation_params, set_packet_params, Sx1276::{set_modulation_params, set_packet_params}
+#[kani::proof]
+#[kani::unwind(26)]
+fn ldro_programmed_sx1276() {
+    ldro_programmed(regradio_1276(), 0x26, 0x08, false);
+}
+//@h id=ldro_programmed_sx1272 props=C15 tier=quick build=phy cost=300 timeout=1800
+//@bounds SX1272, as ldro_programmed_sx1276: RegModemConfig1 bit 0 (BW 125/250/500 kHz)
+//@encodes Sx1272::{set_modulation_params, set_packet_params}
+#[kani::proof]
+#[kani::unwind(26)]
+fn ldro_programmed_sx1272() {
+    ldro_programmed(regradio_1272(), 0x1D, 0x01, false);
+}
+//@h id=ldro_programmed_sx1276_pkt_first props=C15 tier=thorough build=phy cost=300 timeout=1800
+//@bounds as ldro_programmed_sx1276 with set_packet_params before set_modulation_params (LoRa::continuous_wave)
+#[kani::proof]
+#[kani::unwind(26)]
+fn ldro_programmed_sx1276_pkt_first() {
+    ldro_programmed(regradio_1276(), 0x26, 0x08, true);
+}
+//@h id=ldro_programmed_sx1272_pkt_first props=C15 tier=thorough build=phy cost=300 timeout=1800
+//@bounds as ldro_programmed_sx1272 with set_packet_params before set_modulation_params
+#[kani::proof]
+#[kani::unwind(26)]
+fn ldro_programmed_sx1272_pkt_first() {
+    ldro_programmed(regradio_1272(), 0x1D, 0x01, true);
+}
